@@ -500,6 +500,15 @@ def _clean_up_state(state: State) -> None:
                 flow_state.child_flow_uids = [
                     uid for uid in flow_state.child_flow_uids if uid not in removed_uids
                 ]
+        # An activated flow outlives the flow that activated it first as long as another flow
+        # keeps it activated: hand it over to that flow instead of leaving a parent reference
+        # to a flow that no longer exists
+        for flow_state in state.flow_states.values():
+            if flow_state.parent_uid in removed_uids and flow_state.activated > 0:
+                for other_flow_state in state.flow_states.values():
+                    if flow_state.uid in other_flow_state.child_flow_uids:
+                        flow_state.parent_uid = other_flow_state.uid
+                        break
 
     # Remove all actions that are no longer referenced
     # TODO: Refactor to use no more ids to simplify memory management
